@@ -524,6 +524,16 @@ func run(t0 time.Time) int {
 				if disagree {
 					o.Res.Status = "disagree"
 				}
+				if o.Res.Status == "unsat" {
+					// stability probe (reported, never an alarm): is the proof found again with other random seeds
+					// inside the quick budget?  Slow or seed-dependent proofs are the ones that break first.
+					sd := solverDef{"z3-new/reseeded", func(f string, s int) []string {
+						return []string{"z3-new", fmt.Sprintf("-T:%d", s), "smt.random_seed=7", "sat.random_seed=7", f}
+					}}
+					if r2 := runSolver(context.Background(), sd, file, 10); r2.Status != "unsat" {
+						o.Unstable = r2.Status
+					}
+				}
 			} else {
 				o.Res, o.All = solveFile(file, budget, lambda)
 			}
@@ -845,6 +855,22 @@ func writeEvidence(g *G, prop string, results []*FuncResult, obls []*Obl, nObl, 
 		"abstractions":             keys(abstr),
 		"vacuity":                  map[string]int{"checks": vacChecks, "passed": vacOK},
 		"samples":                  samples,
+		"reseed_stability": func() interface{} {
+			if *flagTier != "thorough" {
+				return "not run in this tier (thorough tier only)"
+			}
+			bad := []string{}
+			n := 0
+			for _, o := range obls {
+				if o.Expect == "" && o.Res.Status == "unsat" {
+					n++
+					if o.Unstable != "" {
+						bad = append(bad, o.Name+" ("+o.Unstable+" with seed 7 in 10 s)")
+					}
+				}
+			}
+			return map[string]interface{}{"proofs_rechecked_with_other_seeds": n, "not_found_again_within_the_quick_budget": bad}
+		}(),
 		"obligation_list":          full,
 		"known_findings":           kh,
 		"violating_obligations":    vs,
